@@ -23,6 +23,8 @@ import (
 
 	"verif/cfg"
 	"verif/core"
+	"verif/sg"
+	"verif/wl"
 )
 
 // C07 — a configured instance is safe for concurrent use (Go race detector + output comparison).
@@ -33,7 +35,7 @@ func init() {
 		Level:   "exploration",
 		Race:    true,
 		Workers: 24,
-		Rule: "cases = rounds: a FRESH shared instance, G in {2,4,16} goroutines released by one barrier, each running a PRNG-chosen script of Convert / Parse+Render over documents that touch every lazily initialised or shared object; " +
+		Rule: "cases = rounds: a FRESH shared instance, G in {2,4,16} goroutines released by one barrier, each running a PRNG-chosen script of Convert / Parse+Render over a fixed pool of documents that touch every lazily initialised or shared object plus 2-7 fresh documents per round from the shared workload library (line soup, token soup, corpus mutants, by-construction documents), so that state reached only through particular input shapes is exercised concurrently; " +
 			"worker processes are started per GOMAXPROCS in {1,2,4,16} and per repetition because process-wide first use can race only once per process; the harness is built with -race, " +
 			"a build-tag hook inside goldmark injects yields/spins (no synchronisation) at Parse/Render entry and inside the three lazy initialisers. " +
 			"Oracle: (1) any race-detector report with a goldmark frame, (2) a fatal runtime error, (3) any goroutine's output differing from the sequential output of the same (configuration, source). " +
@@ -201,12 +203,33 @@ func runC07(c *core.Ctx) {
 
 	insts := c07Instances()
 	r := c.Rng
-	rounds := c.N(250, 1600)
-	docs := make([][]byte, len(c07Docs))
+	rounds := c.N(300, 2000)
+	fixed := make([][]byte, len(c07Docs))
 	for i, d := range c07Docs {
-		docs[i] = []byte(d)
+		fixed[i] = []byte(d)
 	}
+	corpus := loadCorpus(c)
 	for round := 0; round < rounds; round++ {
+		// the documents of a round: the fixed pool (every lazily initialised or shared object) plus documents drawn from the
+		// shared workload library, so that state reached only through particular input shapes is exercised concurrently too
+		docs := append([][]byte(nil), fixed...)
+		if round > 0 {
+			for k := 2 + r.Intn(6); k > 0; k-- {
+				var d []byte
+				switch r.Intn(6) {
+				case 0, 1:
+					d = wl.SoupFrom(r, c08Lines, 2+r.Intn(12))
+				case 2:
+					d = wl.Soup(r, 1+r.Intn(24))
+				case 3:
+					d = []byte(sg.Document(r, 3, 6, 3, nil).Markdown)
+				default:
+					d = wl.Mix(r, corpus)
+				}
+				docs = append(docs, d)
+			}
+			c.Count("generated_documents", int64(len(docs)-len(fixed)))
+		}
 		inst := insts[r.Intn(len(insts))]
 		if round == 0 {
 			// the very first round of the process: entity table, default instance and everything else race for first use
@@ -221,7 +244,11 @@ func runC07(c *core.Ctx) {
 		for g := range scripts {
 			n := 1 + r.Intn(5)
 			for i := 0; i < n; i++ {
-				scripts[g] = append(scripts[g], c07Call{doc: r.Intn(len(docs)), pr: r.Intn(3) == 0})
+				d := r.Intn(len(docs))
+				if len(docs) > len(fixed) && r.Intn(2) == 0 {
+					d = len(fixed) + r.Intn(len(docs)-len(fixed))
+				}
+				scripts[g] = append(scripts[g], c07Call{doc: d, pr: r.Intn(3) == 0})
 			}
 			if round == 0 {
 				scripts[g][0].doc = g % 2 * 12 // entities on first use
